@@ -42,6 +42,7 @@ struct Th {
     uint64_t last_val;
     int same_loads;
     uint64_t last_run;     // step at which the thread was last chosen (fair fallback)
+    uint32_t last_wseq;    // write count of last_load's atomic when it was loaded
 };
 
 struct Xo {
@@ -128,7 +129,9 @@ inline void mix(uint32_t op, uint32_t ord) {
 uint32_t take(uint32_t n, uint32_t gen) {
     uint32_t v;
     if (g.replaying)
-        v = (g.ndec < g.nreplay ? g.replay[g.ndec] : 0u) % n;
+        // beyond the end of the list the default is 0 -- except in the fair phase of a long run, where
+        // the (deterministic) least-recently-run choice applies in replays as well
+        v = (g.ndec < g.nreplay ? g.replay[g.ndec] : gen) % n;
     else
         v = gen % n;
     if (g.ndec < DEC_CAP) g_dec[g.ndec] = uint8_t(v); else g.st.dec_overflow = 1;
@@ -247,6 +250,9 @@ void schedule(bool final_exit = false) {
             }
         }
     }
+    if (int64_t(g.st.steps) > g.cfg.step_bound / 4)
+        for (int t = 0; t < g.nth; ++t)
+            if (g.th[t].state == S_SPIN) g.th[t].state = S_RUN;     // fair phase: presumptions are dropped
     int cand[MAXT];
     uint32_t n = 0;
     bool me_en = g.th[me].state == S_RUN;
@@ -271,7 +277,10 @@ void schedule(bool final_exit = false) {
     }
     if (n == 0) deadlock();
     uint32_t idx = 0;
-    if (n > 1) idx = take(n, g.replaying ? 0 : pick(cand, n, me_en));
+    if (n > 1) {
+        const bool fair_phase = int64_t(g.st.steps) > g.cfg.step_bound / 4;
+        idx = take(n, (g.replaying && !fair_phase) ? 0 : pick(cand, n, me_en));
+    }
     int next = cand[idx];
     g.th[next].last_run = g.st.steps;
     if (me_en && next != me) g.st.preempts++;
@@ -432,12 +441,13 @@ void rt_cv_notify(CvSt* c, bool all) {
 }
 
 // ---- atomics ----------------------------------------------------------------
-void rt_atomic_init(AtomicSt* a) { a->ord = new_ord(); a->pad = 0; }
+void rt_atomic_init(AtomicSt* a) { a->ord = new_ord(); a->pad = 0; }   // pad: number of writes so far
 void rt_atomic_loaded(AtomicSt* a, uint64_t v) {
     if (!g.active) return;
     Th& t = g.th[me];
     if (t.last_load == a && t.last_val == v) t.same_loads++;
     else { t.last_load = a; t.last_val = v; t.same_loads = 1; }
+    t.last_wseq = a->pad;
     mix(OP_ALOAD, a->ord);
     if (t.same_loads >= 3) {
         // busy-wait heuristic: presume blocked until someone writes `a`
@@ -450,6 +460,7 @@ void rt_atomic_loaded(AtomicSt* a, uint64_t v) {
 void rt_atomic_written(AtomicSt* a, bool rmw) {
     if (!g.active) return;
     reset_spin(g.th[me]);
+    a->pad++;
     for (int t = 0; t < g.nth; ++t)
         if (g.th[t].state == S_SPIN && g.th[t].obj == a) g.th[t].state = S_RUN;
     after(rmw ? OP_ARMW : OP_ASTORE, a->ord);
@@ -502,8 +513,9 @@ void rt_yield() {
     Th& t = g.th[me];
     g.st.p_yield++;
     if (g.cfg.strategy == STRAT_PCT) t.prio = g.pct_low--;
-    if (t.last_load != nullptr) {
-        // yield inside a polling loop: presume blocked on the polled atomic
+    if (t.last_load != nullptr && static_cast<const AtomicSt*>(t.last_load)->pad == t.last_wseq) {
+        // yield inside a polling loop: presume blocked on the polled atomic -- unless it has been
+        // written since this thread looked (then the next look sees the new value)
         t.state = S_SPIN; t.obj = t.last_load;
         t.same_loads = 0;
         g.st.p_spin_block++;
